@@ -1782,3 +1782,135 @@ def c01(ctx):
                     ctx.nontrivial.add(("sim", k))
     ctx.add_sample({"environments": [e[0] for e in C01_ENVS], "corpora": {k: len(v) for k, v in corp.items()}})
     ctx.add_sample(corp["udp"][0])
+
+
+# ---------------------------------------------------------------------------
+# C16: HTTP test server
+
+HTTP_KINDS = ["ok", "content", "range", "redirect", "unknown", "stall"]
+
+
+def http_req(rng, kind=None, close=None):
+    kind = kind or rng.choice(HTTP_KINDS[:5] * 3 + ["stall"])
+    r = {"kind": kind, "close": (rng.random() < 0.2) if close is None else close}
+    if kind == "range":
+        a = rng.randint(0, 900)
+        r["rstart"], r["rend"] = a, a + rng.randint(0, 99)
+    if rng.random() < 0.04:
+        r["malformed"] = True
+    return r
+
+
+def rand_http_program(rng):
+    keep = rng.random() < 0.75
+    ncl = rng.choice([1, 1, 2, 3])
+    clients = []
+    t = 10
+    for i in range(1, ncl + 1):
+        reqs = [http_req(rng) for _ in range(rng.randint(1, 5))]
+        cuts = []
+        for _ in range(rng.randint(0, 6)):
+            cuts.append([rng.choice([1, 2, 3, 5, 17, 30, 60, 200]), rng.choice([0, 0, 100, 70000, 200000])])
+        clients.append({"id": i, "connect_at": t, "reqs": reqs, "cuts": cuts,
+                        "close_after": rng.random() < 0.6, "close_delay": rng.choice([1000, 1500000, 1500000])})
+        # successive clients: the next one connects when this one is surely finished, or (no stop) while it is active
+        t += rng.choice([3000000, 3000000, 50000])
+    prog = {"keepalive": keep, "clients": clients}
+    if rng.random() < 0.3:
+        # stop() only while no client is waiting to be accepted: after everything, or in a gap before a later client
+        prog["stop_at"] = t + 5000000
+        if rng.random() < 0.6:
+            late = {"id": ncl + 1 if ncl < 3 else 3, "connect_at": t + 6000000, "reqs": [http_req(rng, "ok", False)], "cuts": [],
+                    "close_after": True, "close_delay": 1000}
+            if ncl < 3:
+                clients.append(late)
+        for c in clients[:ncl]:
+            c["close_after"] = True
+    return prog
+
+
+def http_cut_sweep(path):
+    """every single cut position of a three-request stream, with and without a pause at the cut"""
+    n = 0
+    with open(path, "w") as f:
+        reqs = [{"kind": "ok", "close": False}, {"kind": "range", "rstart": 5, "rend": 24, "close": False}, {"kind": "unknown", "close": True}]
+        for keep in (True, False):
+            for pos in range(1, 140):
+                for gap in (0, 70000):
+                    f.write(json.dumps({"keepalive": keep, "clients": [{"id": 1, "connect_at": 10, "reqs": reqs,
+                                        "cuts": [[pos, 0], [1, gap], [2, 0]], "close_after": False}]}) + "\n")
+                    n += 1
+    return n
+
+
+def classify_http_reject(rj):
+    try:
+        e = json.loads(rj["event"])
+    except ValueError:
+        e = {"e": "end"}
+    n = e.get("e")
+    if n == "Response":
+        return "http.response(idx=%s,status=%s)" % ("k", e.get("status"))
+    if n == "End":
+        return "http.quiescent(request-unanswered-or-connection-not-closed)"
+    if n == "ClientEof":
+        return "http.connection-closed-unexpectedly"
+    if n == "ClientConnected":
+        return "http.connect(%s)" % e.get("ec")
+    return "http.reject@%s" % n
+
+
+@check("C16", "model_checking")
+def c16(ctx):
+    import random
+    q = ctx.tier == "quick"
+    ctx.rule = ("request sequences over registered/unknown/redirect/ranged/stalled paths with and without 'Connection: close', "
+                "malformed requests, keep-alive on/off, 1-3 successive clients, stop() in gaps; the byte stream cut (a) at every "
+                "unit boundary pattern TLC enumerates from MCHttpServer.tla (<= 4 writes, cuts inside CRLFCRLF), (b) at every single "
+                "byte offset of a 3-request stream with and without a pause, (c) at random; responses are framed by an "
+                "independent parser (status, content-length, body) and TLC validates the trace against HttpServer.tla; "
+                "non-trivial = run with >= 2 responses or a closing/stalling/malformed request; distinct by trace")
+    ctx.assumptions = ["stop() is issued only while no client is waiting in the accept queue (a queued connect is left hanging by "
+                       "the library; outside the statement)"]
+    vlib.tlc_mc(ctx, "MCHttpServer.tla", "MC_HttpServer.cfg", timeout=600)
+    g = ctx.path("hs_gen_raw.ndjson")
+    vlib.tlc_gen(ctx, "GenHttpServer.tla", "Gen_HttpServer.cfg", g)
+    f1 = ctx.path("hs_gen.ndjson")
+    with open(g) as fi, open(f1, "w") as fo:
+        for line in fi:
+            o = json.loads(line)
+            fo.write(json.dumps({"keepalive": o["keepalive"], "clients": [{"id": 1, "connect_at": 10, "reqs": o["reqs"],
+                                 "cuts": [], "ucuts": o["cuts"], "close_after": False}]}) + "\n")
+    f2 = ctx.path("hs_sweep.ndjson")
+    http_cut_sweep(f2)
+    rng = random.Random(ctx.seed)
+    f3 = ctx.path("hs_rand.ndjson")
+    with open(f3, "w") as f:
+        for _ in range(600 if q else 20000):
+            f.write(json.dumps(rand_http_program(rng)) + "\n")
+    ctx.exhaustive = True
+    for f in (f1, f2, f3):
+        res, total, chunks = vlib.replay(ctx, "record-http", f, keep=True, env={"VH_WALL_LIMIT": "900"})
+        bad = [r for r in res if not r.get("ok")]
+        cases = vlib.read_lines(f, [r["i"] for r in bad[:50]])
+        for r in bad:
+            ctx.violation("http." + r["sig"], r.get("msg", ""), cases.get(r["i"], {"index": r["i"]}), {"subcmd": "record-http"})
+        ctx.evaluations += len(res)
+        traces = [c + ".trace" for c in chunks if os.path.exists(c + ".trace")]
+        out = vlib.validate_traces(ctx, "TraceHttpServer.tla", "Trace_HttpServer.cfg", traces)
+        for (nruns, nev, rejected), tp in zip(out, traces):
+            ctx.traces += nruns
+            for rj in rejected:
+                ctx.violation(classify_http_reject(rj), "trace rejected at event %d: %s | %s" % (rj["at"], rj["event"][:300], rj.get("state")),
+                              {"trace": rj["lines"][:300]}, {"kind": "trace", "module": "TraceHttpServer.tla"})
+            with open(tp) as fh:
+                run = []
+                for line in fh:
+                    if line.startswith('{"e":"Cfg"'):
+                        run = []
+                    run.append(line)
+                    if line.startswith('{"e":"End'):
+                        txt = "".join(run)
+                        if txt.count('"e":"Response"') >= 2 or '"close":true' in run[0] or '"stall"' in run[0] or '"malformed":true' in run[0]:
+                            ctx.nontrivial.add(hash(txt))
+                            ctx.add_sample([json.loads(x) for x in run[:12]])
